@@ -231,7 +231,17 @@ func (vc *VC) smoke(kind string) {
 	} else {
 		vc.oblNames[name] = 1
 	}
-	vc.obls = append(vc.obls, &Obl{Name: name, Kind: "smoke", Prefix: len(vc.lines), Guard: vc.st.Cond, Goal: "false", Func: vc.root.String()})
+	k := "smoke"
+	if vc.fi != nil {
+		short := name[strings.Index(name, "#smoke:")+7:]
+		for _, p := range strings.Split(vc.fi.C.Attrs["infeasible"], ",") {
+			if p != "" && p == short {
+				k = "smoke-dead"
+				vc.noteAssumption("sequential model: program point " + short + " of " + vc.root.String() + " is unreachable (" + vc.fi.C.Attrs["infeasible:"+p] + ")")
+			}
+		}
+	}
+	vc.obls = append(vc.obls, &Obl{Name: name, Kind: k, Prefix: len(vc.lines), Guard: vc.st.Cond, Goal: "false", Func: vc.root.String()})
 }
 
 // smokePath: in path mode an individual path may be infeasible; what must hold is
@@ -575,6 +585,11 @@ func (vc *VC) havocLoc(l Loc) {
 				sort = "(Array Int (Array (_ BitVec 64) " + ls + "))"
 			}
 			h := vc.heapGet(name, sort)
+			if l.Ref == "*" {
+				// every object / array of this type
+				vc.heapSet(name, sort, vc.fresh(sort, "hvall"))
+				continue
+			}
 			if l.Space == 'O' {
 				vc.heapSet(name, sort, sto(h, l.Ref, vc.fresh(ls, "hv")))
 			} else if l.Idx == "" {
